@@ -292,10 +292,10 @@ class TorState(object):
             kw['dirport'],
         )
         router.flags = kw.get('flags', [])
-        if 'bandwidth' in kw:
-            router.bandwidth = kw['bandwidth']
-        if 'ip_v6' in kw:
-            router.ip_v6.extend(kw['ip_v6'])
+        # a Router may be re-used from the previous consensus: nothing
+        # of what that document said about it carries over
+        router.bandwidth = kw.get('bandwidth', 0)
+        router.ip_v6 = list(kw.get('ip_v6', []))
 
         if 'guard' in router.flags:
             self.guards[router.id_hex] = router
@@ -845,6 +845,8 @@ class TorState(object):
             self._old_routers = self.routers
             self.routers = dict()
             self.all_routers = set()
+            self.guards = dict()
+            self.authorities = dict()
             self.routers_by_hash = dict()
             self.routers_by_name = dict()
             for line in data.split('\n'):
